@@ -923,6 +923,15 @@ func typeName(v any) string {
 var canonNumRe = regexp.MustCompile(`^-?(0|[1-9][0-9]*)(\.[0-9]+)?([eE][-+]?[0-9]+)?$`)
 var canonIntRe = regexp.MustCompile(`^-?(0|[1-9][0-9]*)$`)
 
+// numberish: a non-empty string made only of characters that occur in some
+// spelling of a number (digits, signs, point, exponent, radix prefixes, hex
+// digits, underscores, blanks, inf/nan letters). Whether a conversion method
+// accepts such a non-canonical spelling ("0000", "+1", " 1", "1_0", "0x10",
+// "1.", "Infinity") is left open by the statements.
+func numberish(s string) bool {
+	return s != "" && strings.Trim(s, "0123456789+-._eExXoObBaAcCdDfFiInNtTyY \t\n\r") == "" && strings.ContainsAny(s, "0123456789iInN")
+}
+
 func (m *Model) method(a *Node, item any, next emitFn) *merr {
 	e := m.env
 	switch a.S {
@@ -1011,7 +1020,7 @@ func (m *Model) methodScalar(a *Node, item any, next emitFn) *merr {
 		}
 		if s, ok := item.(string); ok {
 			if !canonIntRe.MatchString(s) {
-				if canonNumRe.MatchString(s) || strings.TrimSpace(s) != s || strings.ContainsAny(s, "_+") {
+				if canonNumRe.MatchString(s) || numberish(s) {
 					return openErr("string %q to integer is left open", s)
 				}
 				return suppErr("string %q is not an integer", s)
@@ -1356,7 +1365,7 @@ func (m *Model) datetimeMethod(a *Node, item any, next emitFn) *merr {
 }
 
 func looksDateTimeish(s string) bool {
-	if len(s) < 5 {
+	if len(s) < 4 {
 		return false
 	}
 	digits, seps := 0, 0
@@ -1364,13 +1373,15 @@ func looksDateTimeish(s string) bool {
 		switch {
 		case r >= '0' && r <= '9':
 			digits++
-		case strings.ContainsRune("-:T .+Zz", r):
+		case strings.ContainsRune("-:Tt .,+Zz", r):
 			seps++
 		default:
 			return false
 		}
 	}
-	return digits >= 4 && seps >= 2
+	// Go's layouts (which the implementation parses with) accept one-digit fields, a comma
+	// before the fraction and a lower-case separator
+	return digits >= 3 && seps >= 1
 }
 
 func (m *Model) castDT(v *mdt, want, meth, src string) (*mdt, *merr) {
